@@ -155,6 +155,23 @@ def pairing(repo: Repo, R):
     R.check(conv and before, rule, key_of(fc, "validated-before-store"), fc.site,
             f"dict shorthand is converted to an AnonymousBundle ({conv}) and non-connectables are rejected before anything is stored ({before})",
             why="a non-connectable object ends up in conns (it has no back-reference set)")
+    # what is stored is what the caller passed (or its AnonymousBundle form): `conn` is not re-bound to anything else
+    from ..cfg import reaching_defs, def_value
+    cfgc = CFG(fc.node, may_raise)
+    rd = reaching_defs(cfgc, cn)
+    bad_defs = []
+    for x in stores:
+        from .shared import stmt_index_path
+        for nd in cfgc.nodes_for(stmt_index_path(fc.node, x)):
+            for d in rd[nd.id]:
+                if d == -1:
+                    continue
+                v = def_value(cfgc.nodes[d], cn)
+                if v is None or ast.unparse(v) != f"AnonymousBundle(**{cn})":
+                    bad_defs.append(f"line {cfgc.nodes[d].lineno}: `{ast.unparse(cfgc.nodes[d].ast).splitlines()[0][:70]}`")
+    R.check(not bad_defs, rule, key_of(fc, "stores-what-was-passed"), fc.site,
+            "the value stored in conns is the caller's connectable itself (or its dict shorthand as an AnonymousBundle)" if not bad_defs else f"connect() re-binds `{cn}` before storing it: {sorted(set(bad_defs))[0]}",
+            why="a port connected to another port's reference is frozen onto whatever that port was tied to at the time: re-connecting the referenced port later leaves this one on the replaced net")
     # all three use one reference object for the key: _get_connref(self, portname)
     for m in (fr, fd, fc):
         a = m.node.args.args[1].arg
@@ -206,6 +223,26 @@ def one_ref_per_port(repo: Repo, R):
                 why="two distinct PortRef objects exist for one (instance, port); the back-reference added by connect is not the one a port-reference holder sees")
     shared.eq_hash_wellformed(repo, R, rule, F_PORTREF, "PortRef", "inst", "portname",
                               why="set membership of port references (remove in replace/disconnect) silently fails or removes another port's reference")
+    # references are never forgotten: no removal from Refs.all / portrefs / connrefs anywhere
+    removed = []
+    nscan = 0
+    for fi in repo.funcs_in("hdl21/"):
+        for n in ast.walk(fi.node):
+            tgt = None
+            if isinstance(n, ast.Call) and isinstance(n.func, ast.Attribute) and n.func.attr in ("pop", "popitem", "clear") and isinstance(n.func.value, ast.Attribute) and n.func.value.attr in ("all", "portrefs", "connrefs") and "refs" in ast.unparse(n.func.value.value):
+                tgt = n
+            if isinstance(n, ast.Delete):
+                for t in n.targets:
+                    if isinstance(t, ast.Subscript) and isinstance(t.value, ast.Attribute) and t.value.attr in ("all", "portrefs", "connrefs") and "refs" in ast.unparse(t.value.value):
+                        tgt = n
+            if isinstance(n, ast.Assign) and any(isinstance(t, ast.Attribute) and t.attr == "_refs" for t in n.targets) and fi.qual != "_Instance.__init__":
+                tgt = n
+            if tgt is not None:
+                removed.append(f"{fi.at(tgt)}: `{ast.unparse(tgt)[:60]}`")
+        nscan += 1
+    R.check(not removed, rule, f"{F_INSTANCE}::Refs::never-forgotten", F_INSTANCE,
+            f"no function of hdl21/ removes entries from an instance's Refs (all / portrefs / connrefs) or replaces `_refs` ({nscan} functions scanned)" if not removed else f"references are forgotten: {removed[0]}",
+            why="after the reference is forgotten the next access creates a second PortRef object for the same port: one net is split in two (i1_p and i1_p_)")
 
 
 def _reaches_mutation(repo: Repo, fi: FuncInfo, node: ast.AST, depth=3, seen=None) -> Optional[str]:
